@@ -2,7 +2,7 @@
 #define ENV_CRC_UF_H
 #include <stdint.h>
 #include <stddef.h>
-#define UF_SLOTS 6
+#define UF_SLOTS 24
 struct uf_call { const void *p; size_t len; uint32_t v; int calls; };
 extern struct uf_call uf_std[UF_SLOTS], uf_alt[UF_SLOTS];
 extern int uf_std_n, uf_alt_n, uf_overflow;
